@@ -275,7 +275,9 @@ def validate_shards(module, cfg, proj, shard_dirs, tag, par=8, timeout=1800):
 
     def one(i):
         f, first, n = files[i]
-        return validate(module, cfg, f, "%s_%02d" % (tag, i), timeout=timeout)
+        # the limit grows with the size of the projection (thorough tiers: hundreds of megabytes per shard)
+        tmo = max(timeout, int(os.path.getsize(f) / 100000)) if os.path.exists(f) else timeout
+        return validate(module, cfg, f, "%s_%02d" % (tag, i), timeout=tmo)
 
     t = time.time()
     with ThreadPoolExecutor(max_workers=par) as ex:
